@@ -25,6 +25,7 @@ def gen_histories(n_hist, seed):
         doc = ''.join(rnd.choice(alpha) for _ in range(rnd.randint(0, 8)))
         text = doc
         notifs = []
+        last_line = None
         for _ in range(rnd.randint(1, 4)):
             changes = []
             for _ in range(rnd.randint(1, 3)):
@@ -32,10 +33,23 @@ def gen_histories(n_hist, seed):
                 if rnd.random() < 0.15:
                     changes.append((None, ins))
                     text = ref.strip_cr(ins)
+                    last_line = None
                     continue
                 vp = ref.valid_positions(text)
                 a, b = sorted((rnd.randrange(len(vp)), rnd.randrange(len(vp))))
+                # half of the follow-up edits stay on the line of the previous edit, at or right of it (an edit that leaves a
+                # stale or shifted line table behind only shows in a later edit of the same line)
+                if last_line is not None and rnd.random() < 0.5:
+                    same = [i for i, p in enumerate(vp) if p[0] == last_line]
+                    if same:
+                        a = rnd.choice(same)
+                        b = rnd.choice([i for i in same if i >= a])
                 (l1, c1, o1), (l2, c2, o2) = vp[a], vp[b]
+                # a third of the non-empty deletions are replaced by ASCII of the same byte length (equal-width replacement of
+                # multi-byte characters: "ß" -> "ss", "ℝ" -> "-->", "💣" -> "bomb")
+                if o2 > o1 and l1 == l2 and rnd.random() < 0.34:
+                    ins = 'sbom'[:1] * (o2 - o1) if (o2 - o1) > 4 else 'bomb'[:o2 - o1]
+                last_line = l1
                 changes.append(((l1, c1, l2, c2), ins))
                 text = ref.strip_cr(ref.client_apply(text, o1, o2, ins))
             notifs.append(changes)
